@@ -204,3 +204,30 @@ CLAIMS["C19"] = dict(
     note="main.go's four-line SIGHUP branch is transcribed in the driver; no valid GeoIP database exists offline (unset / empty / missing / garbage "
          "states only); the OnReload data race is C09's known finding.",
 )
+CLAIMS["C12"] = dict(
+    category="model_checking",
+    technique="TLA+ spec RegistrarData.tla: TLC exhaustive over request x registrar configuration x subnet configuration x weighted draw (RespEqualsForwarded, StationAgrees, ForgedFieldsDropped, OverridesOnlyIfAllowed, ...) + execution of every TLC row on the real RegisterBidirectional (also through the real API and DNS front ends) with the forwarded bytes ingested by the real station constructor + trace validation",
+    text="RegistrarData.tla models what the registrar returns to the client (resp), what it forwards to the stations (fwd) and what a station makes "
+         "of the forwarded message (stationView) for every request shape (transport / params / families / disable-overrides / forged response "
+         "and signature fields) and registrar configuration (override sets, weighted override subnets incl. weight 0, exclusions, authenticated "
+         "or not); TLC checks eight invariants (five broken instances violate theirs). Every row is executed on the real RegProcessor with real "
+         "transports and override objects and a recording zmqSender, a seeded subset also through the real API HTTP handler and DNS request "
+         "processor; the forwarded bytes go through the real station NewRegistrationC2SWrapper; the three real views are compared with the row "
+         "(the weighted draw is steered by seeding math/rand). Probabilistic clause: N = ceil(ln(1e-12)/ln(1-w_min)) registrations per weighted "
+         "configuration must hit every non-zero-weight subnet and nothing outside. Recorded tuples validated by Trace_RegistrarData.",
+    note="ZMQ is replaced by a recording sender (as the repository's own tests do); the false-alarm probability of the probabilistic clause is "
+         "<= 1e-12 per run.",
+)
+CLAIMS["C13"] = dict(
+    category="model_checking",
+    technique="TLA+ spec RegistrarLocks.tla (faithful sync.RWMutex with writer preference, request and reload processes): TLC exhaustive (no deadlock, <>[]AllDone under fairness, WholeGeneration) + replay of every enumerated interleaving on the real RegProcessor / ReloadSubnets through in-package selector gates + trace validation of ungated stress (also under -race)",
+    text="RegistrarLocks.tla models Go's RWMutex (readers, writer announced / holding; RLock blocked once a writer is announced) and the request "
+         "(v4 / v6 / dual-stack) and reload processes under three lock protocols: 'single' satisfies no-deadlock, eventual completion and "
+         "WholeGeneration, the as-found 'nested-deferred' deadlocks, 'per-selection' mixes generations. The driver identifies which protocol the real "
+         "processBdReq follows (read locks held at the gates of one dual-stack request) and then forces every maximal interleaving TLC enumerates "
+         "(33 275 in the quick tier) on a fresh real RegProcessor with the real ReloadSubnets and subnet files swapped on disk: state compared at "
+         "every quiescent step, completion within a bound, every answer inside the old or the new subnet set in full. Ungated seeded stress with "
+         "and without -race is validated by Trace_RegistrarLocks.",
+    note="No production hook: gates are installed in-package around the ipSelector interface; Lock's announce and acquire cannot be observed "
+         "separately and are composed in the trace spec; a stall is re-run once before it is reported.",
+)
